@@ -1030,6 +1030,98 @@ def attached_stream(ctx, st=None, record=None):
         ctx.count('attached:random')
 
 
+def copies_stream(ctx, st, record):
+    """an object and its copy.copy / copy.deepcopy / pickle round trip are separate objects: after any setter history on
+    either, EACH object's observations (energy density, polarisation, segments, getters / binned spectrum) equal those of
+    an object freshly constructed from ITS OWN reported parameters (and the closed form), and a change on one leaves
+    every observation of the other untouched.  K: the model keeps two values (`dup`), each compared with its object."""
+    import copy
+    import pickle
+    rng = ctx.rng
+    makers = [('copy', copy.copy), ('deepcopy', copy.deepcopy), ('pickle', lambda o_: pickle.loads(pickle.dumps(o_)))]
+    names = ['original', 'copy']
+    for cls in PROFILES + SPECTRA:
+        props = list(PARAMS[cls]) + (['polarization'] if cls in PROFILES else [])
+        for how, mk in makers:
+            for _ in range(ctx.n(4, 40)):
+                args = specialise(rng, cls, gen_args(rng, cls))
+                pts = gen_points(rng, cls, args)
+                pol = [rng.uniform(-1, 1), rng.uniform(-1, 1), rng.uniform(0.1, 1)] if cls in PROFILES else None
+                a = construct(cls, args, pol)
+                lines, pre = [new_line(cls, args)], []
+                state = [dict(args), None]
+                for _ in range(rng.randint(0, 2)):                     # a short history before the copy
+                    p_, v_ = gen_op(rng, cls, rng.choice(PARAMS[cls]), state[0])
+                    r_ = apply_op(a, cls, p_, v_)
+                    pre.append((p_, v_))
+                    lines.append('set %s %s' % (p_, f2b(v_)))
+                    if r_ == 'ok':
+                        state[0][p_] = v_
+                st_, b = call(mk, a)
+                if st_ != 'ok':
+                    ctx.count('copies:%s:%s:unsupported(%s)' % (cls, how, st_))
+                    continue
+                lines.append('dup')
+                state[1] = dict(state[0])
+                objs = [a, b]
+                hist = []
+                rep = dict(kind='copies', cls=cls, how=how, args=args, pol=pol, pre=pre, ops=hist, points=pts)
+                judges = []
+                last_ok = [None, None]
+                for step_ in range(rng.randint(3, 7)):
+                    who = p_ = v_ = None
+                    if step_ > 0:
+                        who = rng.randrange(2)
+                        p_, v_ = gen_op(rng, cls, rng.choice(props), state[who])
+                    before = [observe(o_, cls, pts) for o_ in objs]
+                    if who is not None:
+                        r_ = apply_op(objs[who], cls, p_, v_)
+                        if r_ == 'ok' and p_ in state[who]:
+                            state[who][p_] = v_
+                        hist.append((names[who], p_, v_))
+                        if p_ != 'polarization':
+                            lines += (['swap'] if who == 1 else []) + ['set %s %s' % (p_, f2b(v_))] + (['swap'] if who == 1 else [])
+                        ctx.count('copies:op:%s' % ('ok' if r_ == 'ok' else 'rejected'))
+                    for k_, o_ in enumerate(objs):
+                        ob = observe(o_, cls, pts)
+                        # the object that was NOT assigned to must not change at all
+                        if who is not None and k_ != who:
+                            d_ = same_obs(before[k_], ob, cls)
+                            if d_ is not None:
+                                ctx.fail('C18:%s:%s:set(%s)@%s->%s-of-the-%s-changes' % (cls, how, p_, names[who], d_, names[k_]),
+                                         '%s: %s made by %s; assigning %s = %r on the %s changed %s of the %s, whose reported parameters did not change'
+                                         % (cls, names[1], how, p_, v_, names[who], d_, names[k_]), dict(rep, ops=list(hist)))
+                        # each object equals a fresh object built from its own report (and the closed form)
+                        fs_, fresh = call(construct, cls, dict(ob['getters']), ob['pol'][0] if cls in PROFILES else None)
+                        if fs_ == 'ok':
+                            d_ = same_obs(ob, observe(fresh, cls, pts), cls)
+                            cf_ = closed_form_violation(cls, ob, pts)
+                            ok_now = d_ is None and cf_ is None
+                            if not ok_now and last_ok[k_] is not False:
+                                what = 'after-%s' % how if who is None else 'set(%s)@%s' % (p_, names[who])
+                                ctx.fail('C18:%s:%s:%s->%s-differs-from-fresh(%s)' % (cls, how, what, names[k_], d_ or 'closed-form'),
+                                         '%s: the %s (made by %s) after %r: %s differs from an object freshly constructed from the parameters it reports %r'
+                                         % (cls, names[k_], how, hist, d_ or cf_, ob['getters']), dict(rep, ops=list(hist)))
+                            last_ok[k_] = ok_now
+                        # K: the model's value for this object
+                        ol = obs_lines(cls, pts, ob['getters'])
+                        start = len(lines) + (1 if k_ == 1 else 0)
+                        lines += (['swap'] if k_ == 1 else []) + ol + (['swap'] if k_ == 1 else [])
+                        judges.append((start, len(ol), ob))
+                        record['traces'] += 1
+
+                def judge(o, judges=judges, cls=cls, pts=pts):
+                    for start, cnt, ob in judges:
+                        why = compare_obs(cls, pts, ob, o[start:start + cnt])
+                        if why is not None:
+                            return why
+                    return None
+                st.add(lines, judge, 'copies:' + cls, dict(cls=cls, how=how, args=args, pre=pre, ops=hist))
+                ctx.count('copies:%s:%s' % (cls, how))
+                ctx.case(key=('copies', cls, how, tuple((w_, p_) for w_, p_, _ in hist)),
+                         sample=dict(cls=cls, how=how, args=args, ops=hist) if rng.random() < 0.02 else None)
+
+
 def consumer_env():
     """plasma slab, uniform profile and the three helpers of the consumer stream"""
     from raysect.optical import World, Point3D, Vector3D
@@ -1478,7 +1570,7 @@ def run(ctx):
     erf_stream(ctx, st, record)
     import traceback
     for name, fn in (('targeted', lambda: targeted(ctx, st, record, exp)), ('defaults', lambda: defaults_stream(ctx, st, record, dflt)),
-                     ('histories', lambda: histories(ctx, st, record)), ('attached', lambda: attached_stream(ctx, st, record)), ('consumer', lambda: consumer_stream(ctx, st, record, table)),
+                     ('histories', lambda: histories(ctx, st, record)), ('attached', lambda: attached_stream(ctx, st, record)), ('consumer', lambda: consumer_stream(ctx, st, record, table)), ('copies', lambda: copies_stream(ctx, st, record)),
                      ('segments', lambda: segments_stream(ctx, st, record)), ('spectra', lambda: spectra_stream(ctx, st, record, table)),
                      ('integrals', lambda: integrals(ctx))):
         try:
